@@ -25,8 +25,8 @@ var owns = map[string]map[string]bool{
 	"C02": {"reopen_diff": true, "post_reopen_read": true, "open_failed": true, "close_panic": true},
 	"C05": {"fresh_read": true, "snapshot_read": true, "dirty_read": true, "invented_value": true},
 	"C06": {"not_serializable": true, "dirty_read": true},
-	"C07": {"commit_result": true},
-	"C08": {"abandoned_visible": true, "misuse_result": true, "update_result": true},
+	"C07": {"commit_result": true, "refused_visible": true},
+	"C08": {"abandoned_visible": true, "refused_visible": true, "misuse_result": true, "update_result": true},
 }
 
 // kinds every E1 check reports (the engine fell over while this property's workload ran)
@@ -154,6 +154,13 @@ func e1Test(t *testing.T, prop string) {
 		pf.Free = true
 	}
 	dir := scratch(t)
+	HangHook = func(step int, op string, dump string) {
+		// a call that never returns is property C15's business; here the run is inconclusive
+		rec.Note(fmt.Sprintf("engine call did not return within %v at step %d (%s); see the C15 check", hangLimit, step, op))
+		_ = os.WriteFile(os.Getenv("VERIF_OUT")+"/hang_"+prop+".txt", []byte(dump), 0o644)
+		vlib.FlushAll(false)
+		os.Exit(3)
+	}
 	one := func(p Program, cj []byte, fatal func(string, ...any)) {
 		rec.Begin(cj)
 		o := Run(p, dir)
